@@ -378,7 +378,7 @@ PROPS["C06"] = {
              "the successive socket write calls on that connection a generated sequence over {pass, accept at most k bytes, would-block (in runs)} applied through the send/sendfile hooks. A raw "
              "client reads the stream. Oracle: the stream is exactly the concatenation of the buffers in issue order (for two issuers: an interleaving of whole buffers preserving each issuer's "
              "order); each promise settles at most once, is fulfilled with the buffer's full size, not before the socket had accepted its last byte, and all are fulfilled in the end. "
-             "Non-trivial = >=2 writes and the script contained a short write followed later by a would-block; distinct = hash of the case. One loop-thread case in three is a chain: write i+1 is issued from the continuation of write i's promise and followed by Transport::flush(). Stage c06_coincide.cc: through the recv hook the single worker is held after it has read a connection's first bytes (a complete request, or a request line / head that makes a 400 due) and again while it reads another connection's request; the first connection's further bytes (the beginning of its next request, the rest of the malformed one, an empty line) arrive meanwhile, so that the kernel reports it readable and writable in one event: the response due must still arrive within 2 s. Non-trivial there = the further bytes arrive during the second hold."),
+             "Non-trivial = >=2 writes and the script contained a short write followed later by a would-block; distinct = hash of the case. One loop-thread case in three is a chain: write i+1 is issued from the continuation of write i's promise and followed by Transport::flush(). Stage c06_coincide.cc: through the recv hook the single worker is held after it has read a connection's first bytes (a complete request, or a request line / head that makes a 400 due) and again while it reads another connection's request; the first connection's further bytes (the beginning of its next request, the rest of the malformed one, an empty line) arrive meanwhile, so that the kernel reports it readable and writable in one event: the response due must still arrive within 2 s. Non-trivial there = the further bytes arrive during the second hold. In chained cases with an odd number (>= 3) of writes the first two are issued together and only the first one's continuation carries the chain on."),
     "engine": "rapidcheck",
     "technique": "property-based testing (rapidcheck) with injected faults: generated write lists x generated short-write / would-block scripts applied through a guarded socket-call indirection; oracle = byte-exact stream reconstruction and promise accounting",
     "level_text": "Placements of short writes and would-block results over the successive socket calls are generated per case and applied to the real transport on a live connection. Not exhaustive: placements are sampled.",
@@ -400,7 +400,7 @@ PROPS["C07"] = {
              "stops reading for a generated 1.6-3.0 s, so 1..k writes are pending on a socket that really returns EAGAIN; 1-3 other connections send 1-4 small requests each at generated offsets "
              "before, during and after the stall. Oracle: every other request is answered correctly within 1 s; the socket write attempts on A between its first would-block and the release "
              "stay <= 4+2k (counted by the hook); after the release A receives exactly the pending responses, in order. Non-trivial = at least one request issued strictly inside the stall with "
-             "its 1 s bound ending before the release, while writes were pending; distinct = hash of the case. oracle_subchecks = cases run. In a quarter of the cases the request A sends at the release is answered as a stream with two flushes on the worker thread."),
+             "its 1 s bound ending before the release, while writes were pending; distinct = hash of the case. oracle_subchecks = cases run. In a quarter of the cases the request A sends at the release is answered as a stream with two flushes on the worker thread. Stage c07_wakeup.cc: the single worker is held through the recv hook while, in this order, B's request, a write for the stalled connection A from another thread and A's writability (A's client starts reading; its pending remainder is sized from a calibration run to 0.6-4 KB) pile up for one wake-up; B is answered with send() or as a stream flushed on the loop thread. The process must survive, B be answered within 2.5 s, A receive its big response and then the foreign answer, complete and in order."),
     "engine": "rapidcheck",
     "technique": "property-based testing (rapidcheck) with real kernel back-pressure as the injected fault: generated stall durations, pending-write counts and request placements; oracle = latency bound on other connections, hook-counted write attempts, byte-exact delivery after release",
     "level_text": "Placements and durations of a real would-block period relative to requests on other connections of the same worker are generated. Sampled, not exhaustive.",
@@ -429,7 +429,7 @@ PROPS["C15"] = {
              "server closes c of the idle connections (end-of-stream pending at the client) and n requests are issued from the application thread, the first ones onto the connections about to be "
              "found closed; close(), connect() and send() are interposed and every descriptor number the client closes is re-occupied at once by a socket the harness owns, so that a request "
              "written to a stale number arrives at the harness. Oracle: nothing is ever written there, every fulfilled request carries its own tag, none is settled twice, requests on connections "
-             "the server never closed are fulfilled. Non-trivial there = a held round with at least one closed connection pending. One batch in four gets a last request with a time-out of 1.7-1.9 s that the server answers after 1.12 s (inside the time-out, later than a whole second): it must be fulfilled."),
+             "the server never closed are fulfilled. Non-trivial there = a held round with at least one closed connection pending. One batch in four gets a last request with a time-out of 1.7-1.9 s that the server answers after 1.12 s (inside the time-out, later than a whole second): it must be fulfilled. Batch shape 'marathon' (one batch in eleven): one connection, 135 requests with a 10 ms time-out that are read and never answered, then three ordinary ones: all 135 must be rejected, the three fulfilled."),
     "engine": "rapidcheck",
     "technique": "property-based testing (rapidcheck) of the real client against a generated scripted server (response segmentation, delays, closes, malformed and missing answers as injected behaviours); oracle = per-request tag matching and settlement accounting, server-side connection invariants",
     "level_text": "Generated batches x server behaviours; OS-level interleavings between client threads are sampled, not owned. Exploration only.",
@@ -457,7 +457,7 @@ PROPS["C09"] = {
              "The same cases run under the asan build and under the tsan build. One case in three is instead a shared-router case without sockets: 2-4 plain threads call "
              "Router::route() on one shared router with generated requests (statuses checked against the same table) - nothing orders those threads, so under the tsan build any unsynchronised "
              "access to the router's shared state is reported whatever the timing. Non-trivial = >=2 workers, >=2 clients and >=3 methods in the mix, or a shutdown point other than idle; "
-             "distinct = hash of the configuration and choice stream. oracle_subchecks = cases run. In a third of the wire-level cases a client asks for an answer that comes 40 ms later from another thread (/slow/:ms) and closes at once; three connections made right after must receive nothing unasked and exactly their own answer to their own request. Requests carry typed headers derived from their tag (HTTP dates in the three formats, cookies, Accept with qualities, Cache-Control), so that the workers parse them at the same moment."),
+             "distinct = hash of the configuration and choice stream. oracle_subchecks = cases run. In a third of the wire-level cases a client asks for an answer that comes 40 ms later from another thread (/slow/:ms) and closes at once; three connections made right after must receive nothing unasked and exactly their own answer to their own request. Requests carry typed headers derived from their tag (HTTP dates in the three formats, cookies, Accept with qualities, Cache-Control), so that the workers parse them at the same moment. The late answer for a departed client is a send() or (odd rounds) the continuation of a stream opened while it was there; the bystanders' sockets are made beforehand so that they are given the freed descriptor number."),
     "engine": "rapidcheck (asan and tsan builds)",
     "technique": "property-based testing (rapidcheck) of generated load / shutdown configurations against a live multi-worker endpoint under ThreadSanitizer and AddressSanitizer; oracle = per-request response identity against an independent route table, shutdown/thread-count bounds, sanitizer reports filtered to pistache frames",
     "level_text": "Decides the functional half (exactly one correct response per request, shutdown terminates, threads gone) on generated configurations; the race-freedom half only as far as a dynamic detector on OS-chosen schedules can. Schedules are sampled, not owned.",
